@@ -12,7 +12,7 @@ pub struct Pattern {
     pub cap0: usize,
     pub msgs: Vec<usize>,    // bytes appended per round (cycled)
     pub takes: Vec<usize>,   // bytes consumed per round (cycled); the rest is the leftover
-    pub mode: String,        // split_to | split | advance | truncate
+    pub mode: String,        // split_to | split | copy_to_bytes | advance | truncate
     pub freeze: bool,        // consumed part is frozen to Bytes before it is retained
     pub roundtrip: u64,      // every `roundtrip`-th round: cur.freeze() -> try_into_mut/into (0 = never)
     pub unsplit: bool,       // give the consumed part back with unsplit when it is not retained
@@ -87,6 +87,8 @@ pub fn run(p: &Pattern, out: &mut String) {
         let part: Option<Part> = match p.mode.as_str() {
             "split_to" => Some(Part::M(cur.split_to(take))),
             "split" => Some(Part::M(cur.split())),
+            // Buf::copy_to_bytes on the BytesMut itself (= split_to + freeze): the part is a Bytes
+            "copy_to_bytes" => Some(Part::B(cur.copy_to_bytes(take))),
             "advance" => {
                 for &b in &cur[..take] {
                     sum_out = sum_out.wrapping_mul(31).wrapping_add(b as u64);
@@ -103,7 +105,14 @@ pub fn run(p: &Pattern, out: &mut String) {
                 None
             }
         };
-        if let Some(Part::M(pm)) = part {
+        if let Some(Part::B(pb)) = &part {
+            for &b in &pb[..] {
+                sum_out = sum_out.wrapping_mul(31).wrapping_add(b as u64);
+            }
+        }
+        if let Some(Part::B(pb)) = part {
+            keep.push_back(Part::B(pb));
+        } else if let Some(Part::M(pm)) = part {
             for &b in &pm[..] {
                 sum_out = sum_out.wrapping_mul(31).wrapping_add(b as u64);
             }
@@ -147,7 +156,7 @@ pub fn run(p: &Pattern, out: &mut String) {
     for &b in &cur[..] {
         sum_out = sum_out.wrapping_mul(31).wrapping_add(b as u64);
     }
-    let intact = p.mode == "split" || p.mode == "split_to" || p.mode == "advance" || p.mode == "truncate";
+    let intact = p.mode == "split" || p.mode == "split_to" || p.mode == "advance" || p.mode == "truncate" || p.mode == "copy_to_bytes";
     drop(keep);
     drop(cur);
     la::set_window(0);
